@@ -103,12 +103,14 @@ NoCount == [kind |-> "none", n |-> 0]
 IntC(n) == [kind |-> "int", n |-> n]            \* count given as a number
 StrC(n) == [kind |-> "str", n |-> n]            \* count given as a numeric string
 
-Vals == {"name", "pct", "ph", "num"}
+Vals == {"name", "pct", "ph", "num", "zero", "false"}
 ValChars(v) ==
   CASE v = "name" -> <<"S", "u", "e">>
     [] v = "pct" -> <<"5", "%">>                 \* a value with a percent sign
     [] v = "ph" -> <<"%", "(", "y", ")", "s">>   \* a value that looks like its own placeholder
     [] v = "num" -> <<"7">>                      \* a number
+    [] v = "zero" -> <<"0">>                     \* the number 0 and the boolean false: bound, printable, and falsy in the host language
+    [] v = "false" -> <<"f", "a", "l", "s", "e">>
 OtherVal == <<"Z">>                              \* render-data value shadowed by a keyword argument
 Binds == {"none", "kw", "data", "both"}          \* how y is bound: not / keyword argument / render data / both
 
